@@ -1,1 +1,145 @@
-From Tiff Require Import TiffEnc TiffDec SideBySide.
+(* Properties_C15.v -- C15 "TIFF writers produce valid BigTIFF files that round-trip every frame".
+   Only statements (closed by [exact]), Print Assumptions, and non-vacuity Examples.
+
+   Vocabulary (all executable definitions, see the model files):
+     run all_fixes (d, fs) ops     the device d (tiff: DTiff, tiff-json: DSbs) and the file system fs after the HAL
+                                   calls ops (TiffEnc.v, SideBySide.v; the model of the REPAIRED code, fixes/01..03)
+     cycle_ops c                   any earlier storage_set calls (valid or not), the effective storage_set, storage_start,
+                                   one storage_append per packet (empty packets allowed), storage_stop
+     valid_cycle json c            the effective settings are accepted by the device kind, the cycle appends N >= 1
+                                   frames, and the resulting file is smaller than 2^64 bytes
+     frames_ok c                   the frame header fields are in the ranges of their C types
+     tif_of json c fs              the contents of the .tif file of c (tiff: the URI without file://; tiff-json:
+                                   <dir>/data.tif)
+     decode                        TiffDec.decode, the independent BigTIFF reader
+     infos md frs                  per frame: width, height, bits per sample, sample format, payload, frame id,
+                                   hardware frame id, timestamps; the user's metadata md on the first frame iff md is
+                                   not empty, none on the others
+     regions ds                    header, and per directory: the IFD, the strip, the out-of-line description
+   The quantification over d covers every state a stopped device can be in (any stale filename_, metadata,
+   offsets, frame counter, inner writer state), and fs is any file system (the target may exist with any contents):
+   this is what makes the statements hold for every start/stop cycle of a device's life. *)
+From Coq Require Import String Ascii Arith NArith List Bool.
+From Tiff Require Import TiffEnc TiffDec SideBySide TiffProps TiffCycles TiffMain.
+Import ListNotations.
+Local Open Scope N_scope.
+
+(* The file decodes to exactly the appended frames, in order: geometry, sample type, payload bytes (hence the
+   pixel bytes, its first width*height*bytes_of_type bytes; the strip may carry the frame's <= 7 padding bytes
+   after them), ids, timestamps, and the metadata on frame 0 iff present. *)
+Theorem C15_roundtrip : forall d fs c,
+  dev_state d <> Running -> valid_cycle (is_json d) c -> frames_ok c ->
+  exists F ds,
+    tif_of (is_json d) c (snd (run all_fixes (d, fs) (cycle_ops c))) = Some F /\
+    decode F = Some ds /\
+    map dir_info ds = infos (c_md c) (c_frames c) /\
+    map pixels_of_info (map dir_info ds) = map pixels_of_frame (c_frames c).
+Proof. exact roundtrip. Qed.
+Print Assumptions C15_roundtrip.
+
+(* Exactly N directories; every link is the offset of the next directory; the last link is 0. *)
+Theorem C15_chain : forall d fs c,
+  dev_state d <> Running -> valid_cycle (is_json d) c ->
+  exists F ds,
+    tif_of (is_json d) c (snd (run all_fixes (d, fs) (cycle_ops c))) = Some F /\
+    decode F = Some ds /\
+    length ds = length (c_frames c) /\
+    map d_next ds = tl (map d_off ds) ++ [0].
+Proof. exact chain. Qed.
+Print Assumptions C15_chain.
+
+(* Every structure (offset + length) lies inside the file. *)
+Theorem C15_in_bounds : forall d fs c,
+  dev_state d <> Running -> valid_cycle (is_json d) c ->
+  exists F ds,
+    tif_of (is_json d) c (snd (run all_fixes (d, fs) (cycle_ops c))) = Some F /\
+    decode F = Some ds /\
+    Forall (in_bounds F) (regions ds).
+Proof. exact bounds. Qed.
+Print Assumptions C15_in_bounds.
+
+(* Header, directories, strips and descriptions are pairwise disjoint. *)
+Theorem C15_disjoint : forall d fs c,
+  dev_state d <> Running -> valid_cycle (is_json d) c ->
+  exists F ds,
+    tif_of (is_json d) c (snd (run all_fixes (d, fs) (cycle_ops c))) = Some F /\
+    decode F = Some ds /\
+    ForallOrdPairs disjoint (regions ds).
+Proof. exact disjointness. Qed.
+Print Assumptions C15_disjoint.
+
+(* Any number of start/stop cycles on one device, each with its own settings (same or different paths):
+   after cycle k the files of cycle k satisfy all of the above (cycle_good = decodes to the frames of cycle k
+   with the metadata of cycle k, chain, bounds, disjointness; and metadata.json for tiff-json). *)
+Theorem C15_cycles : forall cs d fs,
+  dev_state d <> Running ->
+  Forall (fun c => valid_cycle (is_json d) c /\ frames_ok c) cs ->
+  Forall2 (cycle_good (is_json d)) cs (run_cycles (d, fs) cs).
+Proof. exact cycles. Qed.
+Print Assumptions C15_cycles.
+
+(* tiff-json: data.tif satisfies all of the above and metadata.json holds exactly the metadata string. *)
+Theorem C15_side_by_side : forall s fs c,
+  s_state s <> Running -> valid_cycle true c -> frames_ok c ->
+  let fs' := snd (run all_fixes (DSbs s, fs) (cycle_ops c)) in
+  (exists F, fs_get fs' (inner_path (c_path c)) = Some F /\ file_good (c_md c) (c_frames c) F) /\
+  fs_get fs' (metadata_path (c_path c)) = Some (c_md c).
+Proof. exact side_by_side. Qed.
+Print Assumptions C15_side_by_side.
+
+(* The grouping of the frames into packets is irrelevant (every statement above mentions only their concatenation). *)
+Theorem C15_grouping : forall json c packets',
+  concat packets' = c_frames c ->
+  forall fs, cycle_ok json c fs <-> cycle_ok json (mkCycle (c_pre c) (c_props c) packets') fs.
+Proof. exact grouping_irrelevant. Qed.
+Print Assumptions C15_grouping.
+
+(* ------------------------------------------------------------------------------------------------ *)
+(* Non-vacuity: the hypotheses are met by reachable, non-trivial states.                             *)
+
+Definition ex_frame (id : N) : frame :=
+  mkFrame 3 2 1 id (id / 2) (id / 3) (id - id / 7) [1; 2; 3; 4; 5; 6; 7; 8; 9; 10; 11; 12; 0; 0; 0; 0].
+
+(* an invalid earlier configuration, then a valid one with a file:// URI, metadata and a fractional scale;
+   three frames in packets of 2, 0 and 1 *)
+Definition ex_cycle1 : cycle :=
+  mkCycle [mkProps (TiffEnc.lit "/data/b.tif") (Some (TiffEnc.lit "x")) (1, 1) (1, 1)]
+          (mkProps (TiffEnc.lit "file:///data/a.tif") (Some (TiffEnc.lit "{""a"":1}")) (3, 2) (0, 1))
+          [[ex_frame 0; ex_frame 1]; []; [ex_frame 2]].
+
+(* a second cycle on the same path with no metadata *)
+Definition ex_cycle2 : cycle :=
+  mkCycle [] (mkProps (TiffEnc.lit "/data/a.tif") None (1, 1) (1, 1)) [[ex_frame 18446744073709551615]].
+
+Example ex_valid_tiff :
+  (valid_cycle false ex_cycle1 /\ frames_ok ex_cycle1) /\ (valid_cycle false ex_cycle2 /\ frames_ok ex_cycle2).
+Proof.
+  repeat split; try (right; reflexivity); try discriminate; try reflexivity;
+    repeat (apply Forall_cons || apply Forall_nil); repeat split; reflexivity.
+Qed.
+
+Example ex_valid_json : valid_cycle true ex_cycle1 /\ valid_cycle true ex_cycle2.
+Proof. repeat split; try discriminate; reflexivity. Qed.
+
+(* stopped devices: freshly made ones, and the (reachable) state after a complete cycle with stale leftovers *)
+Example ex_stopped_fresh : dev_state (dev_init false) <> Running /\ dev_state (dev_init true) <> Running.
+Proof. split; discriminate. Qed.
+
+Example ex_stopped_after_cycle :
+  dev_state (fst (run all_fixes (dev_init false, []) (cycle_ops ex_cycle1))) <> Running /\
+  dev_state (fst (run all_fixes (dev_init true, []) (cycle_ops ex_cycle1))) <> Running.
+Proof. split; vm_compute; discriminate. Qed.
+
+(* a test, not a theorem: on the concrete two-cycle history the reader returns 3 directories with the metadata on
+   the first one, then 1 directory without metadata although the device saw metadata before (D25 repaired) *)
+Example ex_two_cycles_decode :
+  map (fun fs => match fs_get fs (TiffEnc.lit "/data/a.tif") with
+                 | Some F => option_map (map (fun d => (d_width d, d_height d, d_bits d, j_frame_id (d_desc d),
+                                                        match j_metadata (d_desc d) with Some _ => true | None => false end)))
+                                        (decode F)
+                 | None => None
+                 end)
+      (run_cycles (dev_init false, []) [ex_cycle1; ex_cycle2]) =
+  [ Some [(3, 2, 16, 0, true); (3, 2, 16, 1, false); (3, 2, 16, 2, false)];
+    Some [(3, 2, 16, 18446744073709551615, false)] ].
+Proof. vm_compute. reflexivity. Qed.
